@@ -358,7 +358,9 @@ class Machine:
             self._return()
 
     def _return(self) -> None:
-        self._call_stack.unwind_loops()
+        eval_depth = self._call_stack.unwind_loops()
+        if eval_depth is not None:
+            self._vm_math.truncate_stack(eval_depth)
         self._reg.pc = self._call_stack.get_return()
         self._call_stack.exit_routine()
 
@@ -382,8 +384,14 @@ class Machine:
 
     def _loop(self) -> None:
         self._call_stack.enter_loop()
+        self._call_stack.get_top().eval_depth = self._vm_math.stack_depth()
 
     def _end_loop(self) -> None:
+        # Iteration over lights keeps the names still to be visited on the
+        # evaluation stack; a break (or return) leaves some of them behind.
+        eval_depth = self._call_stack.get_top().eval_depth
+        if eval_depth is not None:
+            self._vm_math.truncate_stack(eval_depth)
         self._call_stack.exit_loop()
 
     @inject(LightSet)
